@@ -256,7 +256,7 @@ INSTANCE_POOL = [
     [1, 1.0], [0], [False], [[0]], [[False]],
     {}, {"a": 1}, {"a": "x"}, {"a": 1, "b": 2}, {"b": 1}, {"ab": 1}, {"": 1}, {"a": 1.5}, {"abc": "x", "b": 1},
     {"a": 0}, {"a": False}, ["x", "y", "z"], ["x", 1, "y"], {"a": "x", "b": "y"}, {"c": 1}, [1, True], [1, "x", "x"],
-    -1e308, -1.5e308, -(2 ** 53 + 1), -0.5, [{"a": 1, "b": 2}, {"a": 2}, {"b": 2, "a": 1}], [[1], [1, 0], [1.0]], [{"a": 1}, {"a": 1, "b": 0}, {"a": 1.0}],
+    -1e308, -1.5e308, -(2 ** 53 + 1), -0.5, [1.0, 1.5], [1.5, 1.0], [0.5, 2.0, "a"], [{"a": 1, "b": 2}, {"a": 2}, {"b": 2, "a": 1}], [[1], [1, 0], [1.0]], [{"a": 1}, {"a": 1, "b": 0}, {"a": 1.0}],
 ]
 
 
